@@ -75,10 +75,10 @@ func (p *cellProxy) Write(a uint32, v byte) {
 	p.m.Write(a, v)
 	p.nested(a)
 }
-func (p *cellProxy) Shutdown()              {}
-func (p *cellProxy) Size() uint32           { return 0 }
-func (p *cellProxy) Clear()                 {}
-func (p *cellProxy) Dump(a uint32) []byte   { return nil }
+func (p *cellProxy) Shutdown()            {}
+func (p *cellProxy) Size() uint32         { return 0 }
+func (p *cellProxy) Clear()               {}
+func (p *cellProxy) Dump(a uint32) []byte { return nil }
 
 func (m *Mem) Base(a uint32) byte {
 	x := (a ^ m.Seed) * 2654435761
